@@ -5,6 +5,7 @@
   happened; fee update; after-bar operations).
 -/
 import Demeter.Uni.Basic
+import Demeter.Gen.ConstsUni
 namespace Demeter.Uni
 open Demeter
 
@@ -63,7 +64,7 @@ def updateFee (cx : NumCtx) (pool : Pool) (last : Option Int) (row : Row) (p : P
   | .nanError => .error .value
   | .part n d =>
     let w := cx.div (n : Rat) (d : Rat)
-    if w > 1 then .error .runtime else calcAmounts cx pool row p w
+    if w > Gen.uniWeightAlarm then .error .runtime else calcAmounts cx pool row p w
 
 /-- the loop of `__update_fee`: positions before a failing one keep their accrual -/
 def updateLoop (cx : NumCtx) (pool : Pool) (last : Option Int) (row : Row) : List Pos → List Pos × Option Err
